@@ -164,7 +164,8 @@ def audit_props(prop, props_rel):
     for block in re.split(r"\n(?=Axioms:|Closed under)", "\n" + out):
         if block.startswith("Axioms:"):
             for m in re.finditer(r"^([A-Za-z_][A-Za-z0-9_.']*)\s*:", block, re.M):
-                axioms.add(m.group(1))
+                if m.group(1) != "Axioms":
+                    axioms.add(m.group(1))
     closed = len(re.findall(r"Closed under the global context", out))
     ok = (rc == 0) and not missing
     notallowed = sorted(a for a in axioms if a not in ALLOWED_AXIOMS)
